@@ -47,3 +47,60 @@ def classify(prop_id, v):
         except Exception:  # a classifier must never hide a violation by crashing
             continue
     return None
+
+
+# ---------------------------------------------------------------- helpers over pattern ASTs
+
+def _ast(v):
+    import ast as _a
+    a = v.get('ast')
+    return _a.literal_eval(a) if a else None
+
+
+def _first_repeat_wild(seq, in_repeat=False, pol=1, out=None):
+    """Polarities (+1 plain, -1 under a negated group) with which the first position of the sequence reaches a
+    wildcard that sits inside a repeated (* or +) group."""
+    if out is None:
+        out = set()
+    if not seq:
+        return out
+    nd = seq[0]
+    if nd[0] in ('star', 'q', 'br'):
+        if in_repeat:
+            out.add(pol)
+    elif nd[0] == 'ext':
+        rep = in_repeat or nd[1] in '*+'
+        p2 = -pol if nd[1] == '!' else pol
+        for a in nd[2]:
+            _first_repeat_wild(a, rep, p2, out)
+    return out
+
+
+@classifier('repdot')
+def _repdot(v, params):
+    """REPDOT: the no-leading-dot guard of a wildcard that opens a repeated group is re-applied on every iteration,
+    so names with an *interior* dot are rejected (accepted, under a negated group) when DOTMATCH is off."""
+    if v['kind'] != 'lang':
+        return False
+    inp = v['input']
+    if 'D' in inp['flags'] or 'E' not in inp['flags']:
+        return False
+    name = inp['name']
+    if isinstance(name, dict):
+        name = name['__bytes__']
+    if '.' not in name[1:] or name[:1] == '.':
+        return False
+    seq = _ast(v)
+    if seq is None:
+        return False
+    pols = _first_repeat_wild(_segment_of(seq, inp))
+    obs, exp = v['observed'].get('match'), v['expected'].get('match')
+    if obs is False and exp is True:
+        return 1 in pols
+    if obs is True and exp is False:
+        return -1 in pols
+    return False
+
+
+def _segment_of(seq, inp):
+    return seq
